@@ -29,7 +29,7 @@ READERS = [(n, True, False) for n in ["blocks", "get_block_type", "get_block_ind
            ("iterate", True, False), ("iter-held", True, False)]
 # setters that evaluate a has_* property first (which provides a context of its own when outside one)
 IMPLICIT_MUTATORS = {"force_and_torque", "force_platforms_data", "events", "emg"}
-MUTATORS = ["add", "remove", "replace", "set:data3D", "set:force_and_torque", "set:force_platforms_data", "set:events", "set:emg"]
+MUTATORS = ["add", "remove", "replace", "set:data3D", "set:force_and_torque", "set:force_platforms_data", "set:events", "set:emg", "add-big"]
 MODES = {
     "no-context": [],
     "allow_write-without-context": ["allow"],
@@ -298,8 +298,20 @@ def judge(ctx, tr, desc):
             return
 
 
+def big_spec(rng, kind):
+    """a block of at least 64 KiB (4096 … 65537 frames): where a writer might reserve room, stream, or switch strategy"""
+    A.SCALE["frames"], A.SCALE["items"] = rng.choice([8192, 16384, 65537]), 2
+    try:
+        return dict(kind=kind, v=A.GEN[kind](rng))
+    finally:
+        A.SCALE["frames"] = A.SCALE["items"] = None
+
+
 def mutator_op(rng, name, present):
     """a mutation that would succeed in a write context"""
+    if name == "add-big":
+        kinds = [k for k in ("emg", "data3d", "force3d", "platdata") if A.BLOCKTYPE[k] not in present]
+        return (("add", None, None), big_spec(rng, rng.choice(kinds)))
     if name == "add":
         kinds = [k for k in A.KINDS if A.BLOCKTYPE[k] not in present]
         return (("add", None, None), C.gen_spec(rng, rng.choice(kinds)))
@@ -330,6 +342,27 @@ def run(ctx):
     C.Clock.install()
     wd = tempfile.mkdtemp(prefix="vtdf")
     traces = []
+
+    def flush():
+        """model + judgement for the traces collected so far (every trace keeps the file's bytes after each of its steps: the
+        thorough tier holds thousands of traces, so they are judged and dropped in chunks)"""
+        if not traces:
+            return
+        cmds = []
+        for tr, _, _ in traces:
+            cmds += tr.cmds
+        rep = common.drv_batch(cmds)
+        pos = 0
+        for tr, desc, tags in traces:
+            pos += 1
+            tr.models = rep[pos:pos + len(tr.obs)]
+            pos += len(tr.obs)
+            ops = [(o["kind"], o["op"][1] if len(o["op"]) > 1 and o["kind"] == "read" else "", o["raised"], o["changed"]) for o in tr.obs]
+            ctx.case((desc.split("#")[0], str(ops)), nontrivial=getattr(tr, "nmodes", 2) >= 2,
+                     sample=dict(trace=desc, steps=[f"{o['kind']}:{o['op'][1] if o['kind'] == 'read' else ''}:{'raised' if o['raised'] else 'ok'}{':CHANGED' if o['changed'] else ''}" for o in tr.obs]),
+                     tags=tags)
+            judge(ctx, tr, desc)
+        del traces[:]
     try:
         start0 = start_with(rng, ["data3d", "events", "emg"])
         # the same file as it is found years later (every date in header and table long past), as other software wrote it, or stamped
@@ -359,6 +392,9 @@ def run(ctx):
                 tr.do(("read", rname, impl, needs))
                 tr.close()
                 traces.append((tr, f"matrix[{mode} x reader {rname}]" + (" on the aged foreign file" if start is aged else " on a 5-slot file" if start is small else ""), ("matrix-readers", mode)))
+            if len(traces) >= 250:
+                flush()
+        flush()
         start = start0
         # seeded interleavings
         for k in range(ctx.n(150, 8000)):
@@ -395,20 +431,9 @@ def run(ctx):
             tr.close()
             tr.nmodes = len(modes_seen)
             traces.append((tr, f"interleaving#{k}", ("interleaving",)))
-        cmds = []
-        for tr, _, _ in traces:
-            cmds += tr.cmds
-        rep = common.drv_batch(cmds)
-        pos = 0
-        for tr, desc, tags in traces:
-            pos += 1
-            tr.models = rep[pos:pos + len(tr.obs)]
-            pos += len(tr.obs)
-            ops = [(o["kind"], o["op"][1] if len(o["op"]) > 1 and o["kind"] == "read" else "", o["raised"], o["changed"]) for o in tr.obs]
-            ctx.case((desc.split("#")[0], str(ops)), nontrivial=getattr(tr, "nmodes", 2) >= 2,
-                     sample=dict(trace=desc, steps=[f"{o['kind']}:{o['op'][1] if o['kind'] == 'read' else ''}:{'raised' if o['raised'] else 'ok'}{':CHANGED' if o['changed'] else ''}" for o in tr.obs]),
-                     tags=tags)
-            judge(ctx, tr, desc)
+            if len(traces) >= 250:
+                flush()
+        flush()
         ctx.exhaustive = False
         ctx.notes.append(f"exhaustive part: {len(MODES)} modes x ({len(MUTATORS)} mutators + {len(READERS)} readers)")
     finally:
